@@ -186,6 +186,10 @@ def c13(run=None):
         s = fc.S(q)
         wg = sorted(w for w in s.writes if w.startswith('global:') or w in ('ghost:EXTMOD',))
         fc.ob(q, 'no_module_state_written', not wg, f'writes {wg} at {[fc.sites(q, w) for w in wg]}')
+        # ... not even temporarily: a restoring context (tmp_seed, a style context) changes process-wide state while it is open,
+        # which another thread can observe or disturb
+        tr = sorted(getattr(s, 'transient', ()))
+        fc.ob(q, 'no_transient_module_state', not tr, f'changes {tr} temporarily inside a restoring context')
         rg = sorted(r for r in s.reads if r.startswith('global:') and r not in READONLY_GLOBALS and r != GLOBAL_PRMS)
         fc.ob(q, 'no_mutable_module_state_read', not rg, f'reads {rg}')
         if not q.endswith('._setup_prms') and not q.endswith('.__init__') and q not in ('ampycloud.core.run', 'ampycloud.core.metar'):
